@@ -116,6 +116,10 @@ func init() {
 		Components: []string{"real: vnet routers (one forwarding goroutine each, a worker), NATs of every mode, hosts, sockets, chunk queues; nothing in vnet is stubbed", "oracle: reference routing model (routing-table walk per hop, host demultiplexing with wildcard and connected-socket rules, composed NAT chain identity for source consistency, per-level permission sets for inbound admission)"},
 		Assumptions: append([]string{"NAT lifetimes are longer than the run (expiry is C02/C03's subject)", "datagrams to a NAT router's own external address are judged only in phase 2, from sockets on the network that observed the address", "in runs with router stop/start, a bounded queue or a dropping chunk filter 'no loss' is not asserted (integrity, at-most-once, only-its-socket, order and source still are)", "datagrams shorter than 12 bytes carry no tag: they are checked for 'arrives only where such a datagram was sent', not for loss or duplication"}, stdAssume...),
 		Rule: "topologies: root + 1-4 (thorough: 1-7) LAN routers nested to depth 3 with random NAT type (3x3 NAPT or 1:1), MinDelay/MaxJitter/QueueSize/chunk filter options; 1-2 hosts per router with automatic/one/two addresses; specific, wildcard and Dial-connected sockets; 3-120 datagrams of 0..1500 bytes from concurrent senders to bound sockets, unbound ports, unroutable and unheld addresses and loopback; then replies and unsolicited datagrams to observed translated sources; fault class: router stop/start during traffic. Non-trivial: >=2 workers and >=1 context switch; distinct = schedule hash"})
+	def("C19", &propCfg{Race: true,
+		Components: []string{"real: packetio, deadline, dpipe, vnet (sockets, routers, filters, network construction), udp (over the simnet stub), all built with -race", "oracle: the Go race detector; the controller's own synchronisation is hidden from it (RaceDisable around the park/resume hand-over and simrt's internal locks, //go:norace bookkeeping), so the happens-before relation it sees is the program's"},
+		Assumptions: append([]string{"a report counts when both racing accesses are in pion/transport code, or one is there and the other in the generated client program", "the race detector reports each race once per process, so failures are replayed (not minimised) in a fresh process"}, stdAssume...),
+		Rule: "client programs generated from operations documented or tested as concurrency-safe: packet buffer, deadline, dpipe, vnet sockets/router/host API under traffic, independent networks built in parallel, TokenBucketFilter.Set under traffic, DelayFilter, udp listener and connections; 2-4 client workers with 2-8 operations each plus the packages' own goroutines. Non-trivial: >=2 workers and >=1 context switch; distinct = schedule hash"})
 	def("C09", &propCfg{
 		Components:  []string{"real: deadline.Deadline over simrt.Timer (AfterFunc callbacks are workers parked at their entry, so a dispatched-but-unrun callback can be overtaken by further Set calls)", "stub: none"},
 		Assumptions: stdAssume,
@@ -402,22 +406,43 @@ func runCheck(id string, pc *propCfg, tier string, seed uint64, replay string, p
 				"VERIF_MODE=explore", fmt.Sprintf("VERIF_SEED=%d", seed), fmt.Sprintf("VERIF_PROC=%d", p),
 				fmt.Sprintf("VERIF_BUDGET_S=%d", budget), "VERIF_TIER="+tier,
 				"VERIF_OUT="+filepath.Join(outDir, fmt.Sprintf("sum-%d.json", p)),
-				"VERIF_REPLAY_DIR="+repDir, "GOMAXPROCS=2")
+				"VERIF_REPLAY_DIR="+repDir, "GOMAXPROCS=2",
+				"GORACE=halt_on_error=0 log_path="+filepath.Join(outDir, fmt.Sprintf("race-%d", p)))
 			timeout := time.Duration(budget)*time.Second*3 + 5*time.Minute
 			cmd := exec.Command(bin, "-test.run", "^TestSim$", "-test.timeout", timeout.String(), "-test.count=1")
 			cmd.Env = env
 			cmd.Dir = scratch
 			out, err := cmd.CombinedOutput()
 			if err != nil {
+				if _, serr := os.Stat(filepath.Join(outDir, fmt.Sprintf("sum-%d.json", p))); serr == nil && pc.Race {
+					return // race builds: the test binary exits 1 when the detector reported anything; the summary decides
+				}
 				errs[p] = fmt.Sprintf("proc %d: %v\n%s", p, err, tail(string(out), 4000))
 			}
 		}(p)
 	}
 	wg.Wait()
-	for _, e := range errs {
-		if e != "" {
-			return infra("harness process failed: %s", e)
+	for p, e := range errs {
+		if e == "" {
+			continue
 		}
+		// the harness process died: if the run it was executing kills a fresh process in
+		// the same way, the code under test crashes (fatal runtime error) - a violation
+		cur := filepath.Join(outDir, fmt.Sprintf("sum-%d.json.current.json", p))
+		if _, serr := os.Stat(cur); serr == nil {
+			if class, detail := replayCrash(bin, cur); class != "" {
+				_ = os.MkdirAll(filepath.Join(verifDir, "replays"), 0o755)
+				dst := filepath.Join(verifDir, "replays", fmt.Sprintf("%s-crash-%d.json", id, seed))
+				copyFile(cur, dst)
+				if kf := loadKnown().match(id, class); kf != nil {
+					fmt.Printf("KNOWN-FINDING: property=%s %s [class=%s replay=%s]\n", id, kf.Description, class, dst)
+					return 0
+				}
+				fmt.Printf("VIOLATION property=%s replay=%s\n  class=%s\n  %s\n", id, dst, class, indent(head(detail, 2500)))
+				return 1
+			}
+		}
+		return infra("harness process failed: %s", e)
 	}
 	// merge
 	merged := summary{Property: id, Faults: map[string]int{}, Probes: map[string]int{}, Strategies: map[string]int{}}
@@ -529,7 +554,7 @@ func runCheck(id string, pc *propCfg, tier string, seed uint64, replay string, p
 		violations++
 		exit = 1
 		outLines = append(outLines, fmt.Sprintf("VIOLATION property=%s replay=%s", id, dst))
-		outLines = append(outLines, fmt.Sprintf("  class=%s seed=%d occurrences=%d\n  %s", c, rep.RunSeed, len(fl), indent(tail(rep.Detail, 1500))))
+		outLines = append(outLines, fmt.Sprintf("  class=%s seed=%d occurrences=%d\n  %s", c, rep.RunSeed, len(fl), indent(head(rep.Detail, 1800))))
 	}
 	if merged.InfraN > 0 {
 		outLines = append(outLines, fmt.Sprintf("INFRASTRUCTURE-ERROR %d runs hit an infrastructure problem, e.g. %v", merged.InfraN, first(merged.Infra, 3)))
@@ -569,6 +594,13 @@ func first(s []string, n int) []string {
 
 func indent(s string) string { return strings.ReplaceAll(s, "\n", "\n  ") }
 
+func head(s string, n int) string {
+	if len(s) <= n {
+		return s
+	}
+	return s[:n] + "…"
+}
+
 func tail(s string, n int) string {
 	if len(s) <= n {
 		return s
@@ -583,10 +615,49 @@ func copyFile(src, dst string) {
 	}
 }
 
+// replayCrash replays an in-progress file; returns a class if the process dies with a
+// fatal error or panic whose stack contains code of the repository.
+func replayCrash(bin, path string) (string, string) {
+	rdir, _ := os.MkdirTemp("/dev/shm", "verif-race-")
+	defer os.RemoveAll(rdir)
+	env := append(goEnv(), "VERIF_MODE=replay", "VERIF_REPLAY="+path, "GOMAXPROCS=2", "GORACE=halt_on_error=0 log_path="+filepath.Join(rdir, "race"))
+	cmd := exec.Command(bin, "-test.run", "^TestSim$", "-test.timeout", "10m", "-test.count=1")
+	cmd.Env = env
+	out, err := cmd.CombinedOutput()
+	text := string(out)
+	if err == nil || strings.Contains(text, "REPLAY-RESULT ") {
+		return "", ""
+	}
+	if !strings.Contains(text, "fatal error:") && !strings.Contains(text, "panic:") {
+		return "", ""
+	}
+	fn := "unknown"
+	for _, l := range strings.Split(text, "\n") {
+		l = strings.TrimSpace(l)
+		if strings.HasPrefix(l, "github.com/pion/transport/v3/") && !strings.Contains(l, "/zzverif/") {
+			if i := strings.LastIndex(l, "("); i > 0 {
+				l = l[:i]
+			}
+			fn = strings.TrimPrefix(l, "github.com/pion/transport/v3/")
+			break
+		}
+	}
+	if fn == "unknown" {
+		return "", ""
+	}
+	i := strings.Index(text, "fatal error:")
+	if j := strings.Index(text, "panic:"); j >= 0 && (i < 0 || j < i) {
+		i = j
+	}
+	return "crash:" + fn, text[i:]
+}
+
 // doReplay runs a replay file in a fresh process. Returns 1 if the recorded violation
 // class was reproduced, 0 if no violation occurred, 2 otherwise.
 func doReplay(id, bin, path string, print bool) int {
-	env := append(goEnv(), "VERIF_MODE=replay", "VERIF_REPLAY="+path, "GOMAXPROCS=2")
+	rdir, _ := os.MkdirTemp("/dev/shm", "verif-race-")
+	defer os.RemoveAll(rdir)
+	env := append(goEnv(), "VERIF_MODE=replay", "VERIF_REPLAY="+path, "GOMAXPROCS=2", "GORACE=halt_on_error=0 log_path="+filepath.Join(rdir, "race"))
 	cmd := exec.Command(bin, "-test.run", "^TestSim$", "-test.timeout", "10m", "-test.count=1")
 	cmd.Env = env
 	out, _ := cmd.CombinedOutput()
@@ -629,6 +700,10 @@ func doReplay(id, bin, path string, print bool) int {
 		}
 	}
 	if print {
+		if class, detail := replayCrash(bin, path); class != "" {
+			fmt.Printf("VIOLATION property=%s replay=%s\n  class=%s\n  %s\n", id, path, class, indent(head(detail, 2500)))
+			return 1
+		}
 		fmt.Printf("INFRASTRUCTURE-ERROR replay produced no result:\n%s\n", tail(string(out), 3000))
 	}
 	return 2
